@@ -622,6 +622,7 @@ def run(ctx):
 
 
 SELFTEST = [
+    ('points-sorted-by-x', 'pyerrors/fits.py', '        x = np.asarray(x)\n        xd = {"": x}\n', '        x = np.asarray(x)\n        order = np.argsort(x, kind=\'stable\')\n        x = x[order]\n        y = [y[i] for i in order]\n        xd = {"": x}\n', 'C07-D7'),
     ('prior-reanalysed', 'pyerrors/fits.py', "    if isinstance(i_prior, Obs):\n        return i_prior", "    if isinstance(i_prior, Obs):\n        i_prior.gm()\n        return i_prior", 'C07-D9'),
     ('corr-fit-x-from-count', 'pyerrors/correlators.py', "        xs = np.array([x for x in range(fitrange[0], fitrange[1] + 1) if self.content[x] is not None])", "        xs = np.arange(fitrange[0], fitrange[1] + 1)", 'C07-D7'),
     ('block-rows-all', 'pyerrors/fits.py', "deriv_y = -scipy.linalg.solve(hess, jac_jac_y[:n_parms, n_parms:])", "deriv_y = -scipy.linalg.solve(hess, jac_jac_y[:n_parms, :-n_parms])", 'C07-D1'),
